@@ -185,7 +185,19 @@ func c14Castling(c *Ctx, in *absint.Interp) {
 		r.Check(got == fmt.Sprintf("%q", want), "R14-tables", fmt.Sprintf("fen castling text|rights=%d", rights), c.pos(printFn.Pos()), "", fmt.Sprintf("printed as %s, standard %q", got, want))
 	}
 	// reader: loop body per letter
-	retPhi := headerPhi(parseFn, "ret")
+	// the accumulator: the loop-carried variable of the result's type (whatever it is called)
+	var retPhi *ssa.Phi
+	for _, b := range parseFn.Blocks {
+		for _, ins := range b.Instrs {
+			if phi, ok := ins.(*ssa.Phi); ok && types.Identical(phi.Type(), parseFn.Signature.Results().At(0).Type()) {
+				for _, p := range b.Preds {
+					if b.Dominates(p) {
+						retPhi = phi
+					}
+				}
+			}
+		}
+	}
 	if retPhi == nil {
 		r.Undecided("R14-tables", "fen.parseCastling letter table", c.pos(parseFn.Pos()), "", "accumulator not found")
 		return
